@@ -12,8 +12,11 @@ class Traj:
     """a symbolic trajectory: T frames (symbolic or concrete), N particles (symbolic), d in {2,3}.
     POS(s,i,c) real, TYPE(s,i) int, HM(s,a,b) real cell matrix, BL(s,c) box length, BB(s,c,e) bounds, TS(s) timestep."""
 
-    def __init__(self, ctx, d, T=None, N=None, tag="", same_types=False, same_cell=False):
+    def __init__(self, ctx, d, T=None, N=None, tag="", same_types=False, same_cell=False, pos_map=None, type_map=None, cell_map=None):
+        """pos_map(traj, s, i, c, base) / type_map(traj, s, i, base) / cell_map(traj, s, a, b, base): transformed views of the same
+        underlying trajectory (used by the symmetry clauses of C07: the transformed input is a function of the original one)"""
         self.ctx, self.d, self.tag = ctx, d, tag
+        self.pos_map, self.type_map, self.cell_map = pos_map, type_map, cell_map
         self.T = ctx.int("T" + tag) if T is None else T
         self.N = ctx.int("N" + tag) if N is None else N
         I, R = z3.IntSort(), z3.RealSort()
@@ -33,13 +36,23 @@ class Traj:
         return 0 if shared else s
 
     def pos(self, s, i, c):
-        return sv.SV(self.POS(sv.znum(s), sv.znum(i), sv.znum(c)))
+        base = sv.SV(self.POS(sv.znum(s), sv.znum(i), sv.znum(c)))
+        return self.pos_map(self, s, i, c, base) if self.pos_map else base
 
     def typ(self, s, i):
-        return sv.SV(self.TYPE(sv.znum(self._s(s, self.same_types)), sv.znum(i)))
+        base = sv.SV(self.TYPE(sv.znum(self._s(s, self.same_types)), sv.znum(i)))
+        return self.type_map(self, s, i, base) if self.type_map else base
 
     def hm(self, s, a, b):
-        return sv.SV(self.HM(sv.znum(self._s(s, self.same_cell)), sv.znum(a), sv.znum(b)))
+        base = sv.SV(self.HM(sv.znum(self._s(s, self.same_cell)), sv.znum(a), sv.znum(b)))
+        return self.cell_map(self, s, a, b, base) if self.cell_map else base
+
+    def view(self, pos_map=None, type_map=None, cell_map=None):
+        """the same trajectory seen through a transformation (shares T, N and the underlying functions)"""
+        import copy
+        t = copy.copy(self)
+        t.pos_map, t.type_map, t.cell_map = pos_map, type_map, cell_map
+        return t
 
     def bl(self, s, c):
         return sv.SV(self.BL(sv.znum(self._s(s, self.same_cell)), sv.znum(c)))
